@@ -326,6 +326,8 @@ Inductive case :=
     (* a generated grammatical written expression; obs: one code per assignment *)
 | CTokAll (n : nat) (obs : list Z)
     (* every sequence of n tokens over [alphabet], single spaces, x 8 assignments, packed *)
+| CTokAllFrom (first : nat) (n : nat) (obs : list Z)
+    (* every sequence of 1+n tokens starting with the first-th token of [alphabet] (a big table in slices) *)
 | CTokList (seqs : list Z) (obs : list Z)
     (* listed token sequences (numbers, see seq_of), single spaces, x 8 assignments, packed *)
 | CText (text : list byte) (feats : list (list byte)) (obs : list Z)
@@ -347,6 +349,12 @@ Definition classify (c : case) : verdict :=
       let seqs := all_seqs n in
       let o := unpack obs (length seqs * 8) in
       classify_gen (zlist_eqb (flat_map (fun ts => model_codes (spell ts) es) seqs) o)
+                   (zlist_eqb (flat_map (fun ts => spec_tok_codes ts (spec_envs abc)) seqs) o) None
+  | CTokAllFrom first n obs =>
+      let es := envs abc in
+      let seqs := map (cons (nth first alphabet TRp)) (all_seqs n) in
+      let o := unpack obs (length seqs * 8) in
+      classify_gen (Nat.ltb first 8 && zlist_eqb (flat_map (fun ts => model_codes (spell ts) es) seqs) o)
                    (zlist_eqb (flat_map (fun ts => spec_tok_codes ts (spec_envs abc)) seqs) o) None
   | CTokList zs obs =>
       let es := envs abc in
